@@ -26,8 +26,41 @@ def adapters():
     return dict((n, importlib.import_module("formats." + n)) for n in ("composeinfo", "images", "treeinfo", "discinfo"))
 
 
-def state_of(fmt, obj):
+def _content_sha(fmt, F, obj):
+    """every public attribute of the object graph (the adapter's snapshot), without the two things a dump is modelled to change:
+    a dump must leave all the rest alone (no normalisation of `final`, nothing cached, nothing rewritten)"""
+    try:
+        if fmt == "composeinfo":
+            snap = F[fmt].snap(obj)
+            for v, _ in F[fmt].walk(snap):
+                if isinstance(v.get("release"), dict):
+                    v["release"].pop("is_layered", None)
+        elif fmt in ("images", "treeinfo", "discinfo"):
+            snap = F[fmt].snap(obj)
+            if isinstance(snap, dict):
+                snap.pop("version", None)
+                snap.pop("header_version", None)
+        else:
+            import c08_manifests
+            import formats.manifest_common as mc
+            snap = mc.snap_manifest(obj, c08_manifests.F(fmt).mapping(obj))
+            snap.pop("version", None)
+        return hashlib.sha1(json.dumps(checklib.canon(snap), sort_keys=True, default=repr).encode()).hexdigest()
+    except Exception as e:  # noqa
+        return "snap-failed:" + type(e).__name__
+
+
+def state_of(fmt, obj, F=None):
     """what repeated dumps may change: the mutable bits next to the content"""
+    out = _state_of(fmt, obj)
+    if F is not None:
+        c = _content_sha(fmt, F, obj)
+        if c is not None:
+            out["content_sha"] = c
+    return out
+
+
+def _state_of(fmt, obj):
     if fmt == "composeinfo":
         out = {"version": obj.header.version, "layered": {}}
 
@@ -211,7 +244,7 @@ def run(F, req):
                     obj = build(F, fmt, spec)
                 if ISSUES:
                     r["issues"] = list(ISSUES)
-            r["before"] = state_of(fmt, obj)
+            r["before"] = state_of(fmt, obj, F)
             if fmt in ("rpms", "modules", "extra_files"):
                 import c08_manifests
                 r["content"] = c08_manifests.content_key(fmt, obj)
@@ -222,7 +255,7 @@ def run(F, req):
                     r["text"] = t
                 elif r["sha"][i] != r["sha"][0]:
                     r["other"][str(i)] = t
-            r["after"] = state_of(fmt, obj)
+            r["after"] = state_of(fmt, obj, F)
         except Exception as e:  # noqa
             r["err"] = type(e).__name__
         runs.append(r)
@@ -298,10 +331,21 @@ def modify(F, fmt, obj, old, new):
         obj.compose.respin = new["compose"]["respin"]
         obj.compose.id = new["compose"]["id"]
         obj.release.version = new["release"]["version"]
+        for nv in new["variants"]:                       # variant-level content: name, a further arch, a further path
+            v = obj.variants.variants[nv["key"]]
+            v.name = nv["name"]
+            v.arches = set(nv["arches"])
+            for cat, d in nv["paths"].items():
+                getattr(v.paths, cat).update(d)
     elif fmt == "treeinfo":
         obj.release.version = new["release"]["version"]
         obj.tree.build_timestamp = F[fmt].ts_value(new["tree"]["build_timestamp"])
         obj.tree.platforms = set(new["tree"]["platforms"])
+        for nv in new["variants"]:
+            v = obj.variants.variants[nv["key"]]
+            v.name = nv["name"]
+            for f, val in nv["paths"]:
+                setattr(v.paths, f, val)
     elif fmt == "discinfo":
         obj.description = new["description"]
         obj.disc_numbers = list(new["disc_numbers"])
